@@ -2,10 +2,10 @@ package ksim
 
 import (
 	"fmt"
-	"time"
 	"reflect"
 	"strconv"
 	"strings"
+	"time"
 
 	kruisev1alpha1 "github.com/openkruise/kruise-api/apps/v1alpha1"
 	appsv1 "k8s.io/api/apps/v1"
@@ -176,15 +176,15 @@ func decodeVirtualService(vs *unstructured.Unstructured, stableSvc, canarySvc st
 
 type trafficOracle struct {
 	baseOracle
-	sc        *Scenario
-	stableSvc string
-	canarySvc string
-	orig      map[ObjKey]client.Object // user-owned network objects before the rollout (updated by user edits)
-	claimed   bool                     // a BatchRelease has claimed the workload (control annotation) at some point
+	sc               *Scenario
+	stableSvc        string
+	canarySvc        string
+	orig             map[ObjKey]client.Object // user-owned network objects before the rollout (updated by user edits)
+	claimed          bool                     // a BatchRelease has claimed the workload (control annotation) at some point
 	canaryDeletedAt  time.Time
 	canaryDeletedGen int
-	fullStep  bool                     // a step covering every replica was executed (stable pods legitimately all replaced)
-	resetBR   bool                     // a continuous-release reset is in progress (gateway must be restored before capacity is released)
+	fullStep         bool // a step covering every replica was executed (stable pods legitimately all replaced)
+	resetBR          bool // a continuous-release reset is in progress (gateway must be restored before capacity is released)
 }
 
 func (o *trafficOracle) Name() string { return "traffic" }
@@ -468,7 +468,8 @@ func (o *trafficOracle) checkVoid(s *Sim, w *Write) {
 			s.Violate("C04", "V1-canary-service", "V1/unselective/"+fam, w.Seq, "after %s %s by %s the gateway sends traffic to the canary Service but it selects no revision", w.Verb, w.Key, w.Actor)
 		default:
 			// the canary Service must select the new revision: at least one live pod carries every selector label
-			if s.Cfg.PodKill == 0 {
+			// (not judged when the environment may take pods away on its own: pod kills, scale-in by the user)
+			if s.Cfg.PodKill == 0 && !strings.Contains(s.firedEvents(), "scale") {
 				match := 0
 				for _, k := range s.Store.keys {
 					if k.GK != gkPod || k.NS != o.sc.NS {
